@@ -194,7 +194,10 @@ def gen_case(rng, tier, g):
     if m < 0.8:
         kind = rng.choice(['progress', 'progress', 'log_progress', 'clock'])
         table = gen_table(rng, 12, nfields=rng.randint(1, 3))
-        n = len(table) - 1
+        if rng.random() < 0.04:
+            # a table that yields nothing at all, not even a header
+            table = []
+        n = max(len(table) - 1, 0)
         script = []
         for _ in range(rng.randint(1, 8)):
             r = rng.random()
